@@ -295,7 +295,7 @@ def _bool_locals(body):
     return {i for i, l in enumerate(body.locals) if l["ty"] == "bool"}
 
 
-def flag_search(body, starts, init=None, stop=(), cut_edges=(), call_results=None, avoid=(), max_states=200000):
+def flag_search(body, starts, init=None, stop=(), cut_edges=(), call_results=None, avoid=(), max_states=200000, on_state=None):
     """Explicit-state reachability over (block, valuation of bool locals with known value).
 
     starts: iterable of blocks to start at (entered at their first statement)
@@ -334,6 +334,9 @@ def flag_search(body, starts, init=None, stop=(), cut_edges=(), call_results=Non
             continue
         v = dict(val)
         blk = body.blocks[bb]
+        if on_state is not None and blk["term"]["k"] == "return":
+            # valuation at a return is the one after the block's statements: computed below, reported there
+            pass
         for s in blk["stmts"]:
             if s["k"] != "assign":
                 continue
@@ -357,6 +360,8 @@ def flag_search(body, starts, init=None, stop=(), cut_edges=(), call_results=Non
         t = blk["term"]
         k = t["k"]
         nxt = []
+        if on_state is not None:
+            on_state(bb, v)
         if k == "switch":
             dv = _op_bool(t["d"], v) if t.get("dty") == "bool" else None
             if dv is not None:
